@@ -1,12 +1,11 @@
 (* Properties/C14.v — EM keeps the model valid and applies the expected-statistics update.
    Model: Model/Em.v (linear domain).  All statements are for lists / tables / iteration counts of
-   ANY size.  Order-dependent statements are over the ordered field Qc; the structural statement is for
-   any number type.  NOT proved (see docs/notes_C14.md): that the backward pass `grads` is the derivative
-   of the root value w.r.t. every node value (C14_grad_affine of DESIGN.md) — only the sum-to-one identity
-   C14_resp_partial is; Categorical simplex preservation; the sign of re-estimated CLT entries; the
-   non-negativity of the forward / backward values is a hypothesis of C14_iter_valid_partial. *)
-From Coq Require Import List Arith ZArith QArith Qcanon Bool.
-From DV Require Import Model.Core Model.Clt Model.Leaves Model.Em Proofs.EmFacts.
+   ANY size.  Order-dependent statements are over the ordered field Qc; the structural statement and
+   the gradient statement are for any number type (commutative semiring + cancelling division).
+   Scope of the statements: complete data whose cells fit the leaves (`data_ok`), and — for the
+   gradient — rows on which every node value is non-zero (the code divides by child values). *)
+From Coq Require Import List Arith ZArith QArith Qcanon Bool Ring.
+From DV Require Import Model.Core Model.Clt Model.Leaves Model.Em Proofs.CoreFacts Proofs.EmFacts Proofs.EmGrad.
 Import ListNotations.
 Local Open Scope Qc_scope.
 
@@ -29,6 +28,19 @@ Theorem C14_bern_domain : forall (alpha eta : Qc) (tofz : Z -> Qc), 0 < alpha ->
   0 < p' /\ p' < 1.
 Proof. exact bern_step_domain. Qed.
 
+(* Categorical.em_step: probabilities on the simplex (one per category, categories duplicate-free),
+   non-negative statistics (one per data cell), every data cell a category -> the new vector IS the
+   convex combination with the smoothed weighted frequencies and is on the simplex. *)
+Theorem C14_cat_simplex : forall (alpha eta : Qc) (tofz : Z -> Qc), 0 < alpha -> 0 < eta -> eta < 1 ->
+  tofz 0%Z = 0 -> (forall n, tofz (Z.of_nat (S n)) = 1 + tofz (Z.of_nat n)) ->
+  forall cats ps st xs, nonneg ps -> sumT Qc 0 Qcplus ps = 1 -> length ps = length cats ->
+  nonneg st -> length xs = length st -> NoDup cats -> Forall (fun x => In x cats) xs ->
+  let e := cat_reest Qc 0 Qcplus Qcmult Qcdiv tofz alpha st xs cats in
+  let ps' := zipw (mix Qc 1 Qcplus Qcmult Qcminus eta) ps e in
+  ps' = zipw (fun p e => (1 - eta) * p + eta * e) ps e /\
+  nonneg ps' /\ sumT Qc 0 Qcplus ps' = 1 /\ length ps' = length ps.
+Proof. exact cat_step_simplex. Qed.
+
 (* Gaussian.em_step: for ANY square-root function, any statistics and data, the new mean and stddev
    ARE the convex combinations and the stddev stays positive (re-estimate >= floor > 0). *)
 Theorem C14_gauss_sigma_pos : forall (eps floor eta : Qc) (tsqrt : Qc -> Qc), 0 < floor -> 0 < eta -> eta < 1 ->
@@ -39,9 +51,13 @@ Theorem C14_gauss_sigma_pos : forall (eps floor eta : Qc) (tsqrt : Qc -> Qc), 0 
   m' = (1 - eta) * m + eta * fst e /\ sd' = (1 - eta) * sd + eta * snd e /\ floor <= snd e /\ 0 < sd'.
 Proof. exact gauss_step_sigma_pos. Qed.
 
-(* BinaryCLT.em_step: if every row of every CPT sums to one, so does every row afterwards (for any
-   statistics, data, alpha, eta); scope and tree are untouched.  PARTIAL: entries >= 0 is not proved. *)
-Theorem C14_clt_rows_normalised_partial : forall (alpha eta : Qc) (tofz : Z -> Qc) c st rows,
+(* BinaryCLT.em_step: every CPT row [a; b] with a + b = 1, a >= 0, b >= 0 (row_norm) stays such a row,
+   for any non-negative statistics and binary data, any well-formed predecessor vector (clt_wf: one
+   entry per variable, parents inside the tree); scope and tree are untouched. *)
+Theorem C14_clt_rows_normalised : forall (alpha eta : Qc) (tofz : Z -> Qc), 0 < alpha -> 0 < eta -> eta < 1 ->
+  tofz 0%Z = 0 -> tofz 1%Z = 1 ->
+  forall c st rows, nonneg st -> clt_wf c ->
+  Forall (fun r => forall i, (i < length (cscope c))%nat -> cell Qc c r i = 0%Z \/ cell Qc c r i = 1%Z) rows ->
   Forall (Forall row_norm) (cparams c) ->
   let c' := clt_step Qc 0 1 Qcplus Qcmult Qcminus Qcdiv tofz alpha eta c st rows in
   Forall (Forall row_norm) (cparams c') /\ cscope c' = cscope c /\ cpar c' = cpar c.
@@ -58,25 +74,61 @@ Proof.
   intros. split; [apply em_iters_shape | apply em_iters_length].
 Qed.
 
-(* n iterations (induction on the list of batches): sum weights stay on the simplex, Bernoulli
-   parameters in [0,1], Gaussian stddevs positive, CLT rows normalised.  PARTIAL: `steps_ok` asks that in
-   every iteration the forward values, backward values and root value on the batch are >= 0 (they are
-   for valid parameters; not proved) and that Bernoulli cells are 0/1; Categorical leaves are not covered. *)
-Theorem C14_iter_valid_partial : forall (eps alpha floor eta : Qc) (tsqrt : Qc -> Qc) (tofz : Z -> Qc)
+(* n iterations (induction on the list of batches, any n, any batches): sum weights stay on the simplex
+   (one per child), Bernoulli parameters in [0,1], Categorical probabilities on the simplex, Gaussian
+   stddevs positive, every CLT row a distribution — provided only that the constants are positive, the
+   Gaussian density oracle is non-negative and every data row fits the leaves (complete binary cells for
+   Bernoulli / CLT variables, a category for Categorical ones).  The non-negativity of the forward values,
+   the backward values and hence of all statistics is PROVED from the parameter invariant. *)
+Theorem C14_iter_valid : forall (eps alpha floor eta : Qc) (tsqrt : Qc -> Qc) (tofz : Z -> Qc)
   (xval : nat -> Z -> Qc) (gdens : Qc -> Qc -> nat -> Z -> Qc),
-  0 < eps -> 0 < alpha -> 0 < floor -> 0 < eta -> eta < 1 -> tofz 0%Z = 0 -> tofz 1%Z = 1 ->
-  forall (bvars : list nat) (bs : list (list row)) (t : etable Qc),
-  Forall (node_inv bvars) t -> steps_ok eps alpha floor eta tsqrt tofz xval gdens bvars t bs ->
-  Forall (node_inv bvars)
+  0 < eps -> 0 < alpha -> 0 < floor -> 0 < eta -> eta < 1 ->
+  tofz 0%Z = 0 -> tofz 1%Z = 1 -> (forall n, tofz (Z.of_nat (S n)) = 1 + tofz (Z.of_nat n)) ->
+  (forall m sd v c, 0 <= gdens m sd v c) ->
+  forall (bs : list (list row)) (t : etable Qc),
+  Forall node_inv t -> Forall (data_ok t) bs ->
+  Forall node_inv
     (em_iters Qc 0 1 Qcplus Qcmult Qcminus Qcdiv qleb' tsqrt tofz eps alpha floor xval gdens eta t bs).
 Proof.
-  intros eps alpha floor eta tsqrt tofz xval gdens He Ha Hf H0 H1 Z0 Z1 bvars bs t.
-  exact (em_iters_inv eps alpha floor eta tsqrt tofz xval gdens He Ha Hf H0 H1 Z0 Z1 bvars bs t).
+  intros eps alpha floor eta tsqrt tofz xval gdens He Ha Hf H0 H1 Z0 Z1 ZS Hg bs t.
+  exact (em_iters_inv eps alpha floor eta tsqrt tofz xval gdens He Ha Hf H0 H1 Z0 Z1 ZS Hg bs t).
+Qed.
+
+(* The backward pass computes the derivative of the root value w.r.t. every node value — stated without
+   calculus: `root_with t i x r` is the root value when the value of node i is replaced by x.  On every
+   valid (smooth, decomposable, children-first) table — DAGs included: gradients of shared nodes are summed
+   over all parents — for every node i whose scope is non-empty and every row on which all node values are
+   non-zero, the root is AFFINE in x with slope g_i = nth i (grads ...), and putting the node's own value
+   back gives the root value.  Hence the statistics used by em_iter,
+       leaf_stat i = v_i * g_i / root,   edge_stat i k = v_k * g_i / root   (times w_k in Sum.em_step),
+   are (value x derivative of the root) / root, i.e. the posterior responsibilities.
+   Number type: any commutative semiring with a division that cancels a non-zero right factor. *)
+Theorem C14_grad_affine : forall (T : Type) (t0 t1 : T) (tadd tmul tsub tdiv : T -> T -> T),
+  semi_ring_theory t0 t1 tadd tmul (@eq T) ->
+  (forall a b, b <> t0 -> tdiv (tmul a b) b = a) ->
+  forall (dom : nat -> list Z) (gdens : T -> T -> nat -> Z -> T) (t : etable T) (r : row) (i v0 : nat),
+  let lv := eleaf_val T t0 t1 tadd tmul tsub gdens in
+  let vs := evals T t0 t1 tadd tmul tsub gdens t r in
+  let g := nth i (grads T t0 t1 tadd tmul tdiv t vs) t0 in
+  let ri := mk_rinfo T t0 t1 tadd tmul tsub tdiv gdens t r in
+  valid T t0 tadd dom (eleaf T) lv t -> (i < length t)%nat -> In v0 (scope_of T (eleaf T) t i) ->
+  (forall j, (j < length t)%nat -> nth j vs t0 <> t0) ->
+  (forall x, root_with T t0 t1 tadd tmul lv t i x r = tadd (root_with T t0 t1 tadd tmul lv t i t0 r) (tmul g x)) /\
+  root_with T t0 t1 tadd tmul lv t i (nth i vs t0) r = ri_root T ri /\
+  leaf_stat T t0 tmul tdiv i ri = tdiv (tmul (nth i vs t0) g) (ri_root T ri) /\
+  (forall k, edge_stat T t0 tmul tdiv i k ri = tdiv (tmul (nth k vs t0) g) (ri_root T ri)).
+Proof.
+  intros T t0 t1 tadd tmul tsub tdiv SR Hdiv dom gdens t r i v0 lv vs g ri Hv Hi Hsc Hnz.
+  split; [|split; [|split]].
+  - intros x. exact (grad_affine T t0 t1 tadd tmul tdiv SR dom lv Hdiv t r i v0 Hv Hi Hsc Hnz x).
+  - exact (root_with_self T t0 t1 tadd tmul lv t r i).
+  - reflexivity.
+  - intros k. reflexivity.
 Qed.
 
 (* Responsibilities of a sum node: sum_k w_k * (v_k * g / r) = (sum_k w_k v_k) * g / r, and at the
-   root (g = 1, r = own value <> 0) they sum to one.  PARTIAL: `grads` = derivative is not proved. *)
-Theorem C14_resp_partial : forall ws vs g r : _,
+   root (g = 1, r = own value <> 0) they sum to one. *)
+Theorem C14_resp_sum_one : forall ws vs g r : _,
   dotT Qc 0 Qcplus Qcmult ws (map (fun v => v * g / r) vs) = dotT Qc 0 Qcplus Qcmult ws vs * g / r /\
   (dotT Qc 0 Qcplus Qcmult ws vs <> 0 ->
    dotT Qc 0 Qcplus Qcmult ws (map (fun v => v * 1 / dotT Qc 0 Qcplus Qcmult ws vs) vs) = 1).
@@ -84,8 +136,10 @@ Proof. intros. split; [apply resp_sum | apply resp_root_one]. Qed.
 
 Print Assumptions C14_sum_simplex.
 Print Assumptions C14_bern_domain.
+Print Assumptions C14_cat_simplex.
 Print Assumptions C14_gauss_sigma_pos.
-Print Assumptions C14_clt_rows_normalised_partial.
+Print Assumptions C14_clt_rows_normalised.
 Print Assumptions C14_structure_fixed.
-Print Assumptions C14_iter_valid_partial.
-Print Assumptions C14_resp_partial.
+Print Assumptions C14_iter_valid.
+Print Assumptions C14_grad_affine.
+Print Assumptions C14_resp_sum_one.
